@@ -149,7 +149,7 @@ def check_macro(spec: Spec, w: int, params: Dict[str, int]) -> Dict[str, Any]:
         part['inconclusive'].append(f'{tag}: the harness program does not assemble: {str(e)[:200]}')
         return part
     inputs = [z3.BitVec(f'in{i}', 1) for i in range(spec.n_in)]
-    M = fjsx.Machine(prog, inputs=inputs, max_dispatch=40000 if params.get('once') else 4000, fuel=20_000_000 if params.get('once') else 2_000_000)
+    M = fjsx.Machine(prog, inputs=inputs, max_dispatch=40000, fuel=20_000_000 if params.get('once') else 2_000_000)
     s = z3.SolverFor('QF_BV')
     s.set('timeout', 180_000)
 
